@@ -133,11 +133,11 @@ def is_scalar(ty):
 _LOADED = {}
 
 
-def preload(repo):
+def preload(repo, funcs=None):
     """run all clang invocations of FUNCS concurrently (the results are looked up by load())"""
     from concurrent.futures import ThreadPoolExecutor
     reqs = set()
-    for entry in FUNCS:
+    for entry in (FUNCS if funcs is None else funcs):
         mode = entry[4] if len(entry) > 4 else {}
         reqs.add((repo, entry[1], entry[2], mode.get("tu", "")))
         for _, cflt in mode.get("constexpr", []):
@@ -714,19 +714,20 @@ def find_def(objs, mname, instantiation=False, param_type=None, ctor_params=None
     return found
 
 
-def generate(repo="/repo"):
-    """returns ({unit: text}, [(unit, error)], summary).  A function that cannot be translated is left out of its unit's
+def generate(repo="/repo", only_units=None):
+    """returns ({unit: text}, [(unit, error)], summary); only_units restricts the work to some units (properties).  A function that cannot be translated is left out of its unit's
     file (the tie lemma about it then fails to compile) and reported; the other units are unaffected."""
     head = ["(* GENERATED by translate/srcfuns.py from the clang AST of the current /repo sources. Do not edit. *)",
             "From Coq Require Import ZArith.", "From Romea Require Import Num.", "", "Section Src.", "Context {T : Type} (N : NumOps T).", ""]
     units = {}
-    for entry in FUNCS:
+    funcs = [e for e in FUNCS if only_units is None or unit_of(e[0]) in only_units]
+    for entry in funcs:
         units.setdefault(unit_of(entry[0]), list(head))
     errors, summary = [], {}
     known_by_unit = {}
     _LOADED.clear()
-    preload(repo)
-    for entry in FUNCS:
+    preload(repo, funcs)
+    for entry in funcs:
         cname, src, flt, mname = entry[:4]
         unit = unit_of(cname)
         lines = units[unit]
@@ -781,9 +782,9 @@ def generate(repo="/repo"):
     return texts, errors, summary
 
 
-def generate_to(gen_dir, repo="/repo"):
+def generate_to(gen_dir, repo="/repo", only_units=None):
     """writes gen/SrcFuns<unit>.v for every unit (only when the content changed); returns [(unit, error)]"""
-    texts, errors, _ = generate(repo)
+    texts, errors, _ = generate(repo, only_units)
     os.makedirs(gen_dir, exist_ok=True)
     for u, text in texts.items():
         path = os.path.join(gen_dir, "SrcFuns%s.v" % u)
